@@ -294,11 +294,14 @@ pub enum Stmt {
     Stop,
     Input(LValue),
     Rem(String),
+    /// nothing at all: only meaningful as the LAST statement of a line, where it stands for a trailing `:`
+    Empty,
 }
 
 impl Stmt {
     pub fn kind(&self) -> &'static str {
         match self {
+            Stmt::Empty => "EMPTY",
             Stmt::Let { .. } => "LET",
             Stmt::Print { .. } => "PRINT",
             Stmt::If { .. } => "IF",
@@ -321,6 +324,7 @@ impl Stmt {
 
     pub fn text(&self) -> String {
         match self {
+            Stmt::Empty => String::new(),
             Stmt::Let { target, expr, keyword } => {
                 format!("{}{} = {}", if *keyword { "LET " } else { "" }, target.text(), expr.text())
             }
